@@ -36,6 +36,19 @@ PROFILE = gen.Profile(
 def cases(draw):
     g = gen.TGen(draw, PROFILE)
     p = g.temporal_problem()
+    nums = [f for f in p["fluents"] if f["type"] != "bool" and f["type"][0] in ("int", "real") and not f.get("nowrite") and all(pt != "bool" and pt[0] == "user" and g.objs_of(pt[1]) for _, pt in f["params"])]
+    durs = [a for a in p["actions"] if "dur" in a]
+    if nums and durs and g.b(0.25):
+        # "start-effect chain": several increase / decrease effects at start on one numeric fluent, whose result a
+        # later condition of the same action reads (the compiler has to chain them through its substitution)
+        a, f = g.pick(durs), g.pick(nums)
+        fl = ["fl", f["name"]] + [["obj", g.pick(g.objs_of(pt[1]))] for _, pt in f["params"]]
+        a["effs"] = [e for e in a["effs"] if e["fl"][1] != f["name"]]
+        for _ in range(g.i(2, 3)):
+            a["effs"].append({"kind": g.pick(["inc", "dec"]), "fl": fl, "val": ["i", g.i(1, 3)], "cond": None, "forall": [], "t": ["s", 0]})
+        iv = g.pick([[["e", 0], ["e", 0], False, False], [["s", 0], ["e", 0], True, False]])
+        c = ["i", g.i(-3, 6)]
+        a["conds"].append({"iv": iv, "e": g.pick([["<=", fl, c], ["<=", c, fl], ["=", fl, c], ["<", c, fl]])})
     return {"problem": p, "epsilon": draw(st.sampled_from([None, None, "1/10", "1/2"])), "remove_unused": draw(st.booleans())}
 
 
@@ -104,12 +117,20 @@ def check(ctx, case):
                         break
             if why in ("goal", "condition") and _start_end_same_fluent(plan):
                 shape += ":start+end-effects-on-one-fluent"
-            elif why == "condition" and _effect_vs_own_condition(plan):
+            elif why == "condition" and _effect_vs_own_condition(plan) and _opposite_bool_effects_one_timing(plan):
+                # (numeric and single Boolean start effects ARE substituted into later conditions correctly; the
+                # known finding needs opposite Boolean assignments at one timing, where the last one wins in the
+                # substitution but add-after-delete decides in the original)
                 shape += ":action-writes-fluent-of-its-own-later-condition"
             elif why in ("goal", "condition") and _opposite_bool_effects_one_timing(plan):
                 # add-after-delete inside ONE timing of a durative action (f := true and f := false at end): the
                 # compiled instantaneous action keeps them in an order where the deletion wins (known finding)
                 shape += ":opposite-boolean-effects-at-one-timing"
+            elif why in ("goal", "condition") and _aliased_start_targets(plan):
+                # a start effect on f(p) and another occurrence f(o) in the same action, executed with p = o: the
+                # compiler's substitution is keyed by the lifted expressions and treats them as different fluents
+                # (known finding)
+                shape += ":aliased-start-effect-targets"
             elif why in ("goal", "condition") and _multi_incdec_one_timing(plan):
                 # two or more increase / decrease effects on one fluent at the END of a durative action: the
                 # compiler turns each into an assignment f := f +- c from the same pre-state value, so they do not
@@ -118,6 +139,8 @@ def check(ctx, case):
             sig = f"converted-plan-invalid:{why}{shape}"
             if shape.endswith(":several-increase-decrease-on-one-fluent-at-end"):
                 sig = "converted-plan-invalid:several-increase-decrease-on-one-fluent-at-end"
+            if shape.endswith(":aliased-start-effect-targets"):
+                sig = "converted-plan-invalid:aliased-start-effect-targets"
             if shape.endswith(":start+end-effects-on-one-fluent"):
                 sig = "converted-plan-invalid:start+end-effects-on-one-fluent"
             if shape.endswith(":opposite-boolean-effects-at-one-timing"):
@@ -145,6 +168,36 @@ def _start_end_same_fluent(plan):
                 by_t[t.is_from_start()] = by_t.get(t.is_from_start(), set()) | {e.fluent.fluent().name for e in effs}
             if by_t.get(True, set()) & by_t.get(False, set()):
                 return True
+    return False
+
+
+def _aliased_start_targets(plan):
+    """a start-effect target f(..p..) of an executed durative action and a syntactically different occurrence of f in the
+    same action (another effect target, a condition, an effect value) that denote the same ground fluent under the
+    plan's parameter binding"""
+    from unified_planning.model import DurativeAction
+    from unified_planning.model.walkers import FreeVarsExtractor
+
+    fve = FreeVarsExtractor()
+    for _, a, args, _ in plan:
+        if isinstance(a, DurativeAction):
+            sub = {p.name: str(v) for p, v in zip(a.parameters, args)}
+            ground = lambda fe: fe.fluent().name + "(" + ",".join(sub.get(str(x), str(x)) for x in fe.args) + ")"
+            occ = set()
+            for cs in a.conditions.values():
+                for c in cs:
+                    occ |= set(fve.get(c))
+            starts = []
+            for t, effs in a.effects.items():
+                for e in effs:
+                    occ.add(e.fluent)
+                    occ |= set(fve.get(e.value)) | set(fve.get(e.condition))
+                    if t.is_from_start():
+                        starts.append(e.fluent)
+            for tgt in starts:
+                for o in occ:
+                    if o.fluent() == tgt.fluent() and str(o) != str(tgt) and ground(o) == ground(tgt):
+                        return True
     return False
 
 
